@@ -25,7 +25,7 @@ func isPreflightAtoms(rp *ReqPath) bool {
 
 func checkC11(ctx *Ctx) *Result {
 	r := newResult("C11")
-	r.Explanation = "Decided for every request, configuration and wrapped handler: on each path of the request closure the rule counts the calls to the wrapped handler and to WriteHeader, checks their position in the effect sequence and the identity of their arguments (the closure's own h, w, r), and the set of operations applied to the response header map. Decided: the handler-free paths are exactly those carrying method==OPTIONS ∧ found(Origin) ∧ found(ACRM) on a configured middleware; every other path ends with exactly one ServeHTTP(w, r) on the captured handler, after header-map operations limited to Vary:add and ACAO/ACAC/ACEH set/assign, without WriteHeader/Write/delete; the passthrough path does nothing but that call; `found` means present with at least one value (structure of headers.First)."
+	r.Explanation = "Decided for every request, configuration and wrapped handler: on each path of the request closure the rule counts the calls to the wrapped handler and to WriteHeader, checks their position in the effect sequence and the identity of their arguments (the closure's own h, w, r), and the set of operations applied to the response header map. Decided: the handler-free paths are exactly those carrying method==OPTIONS ∧ found(Origin) ∧ found(ACRM) on a configured middleware; every other path ends with exactly one ServeHTTP(w, r) on the captured handler, after header-map operations limited to Vary:add and ACAO/ACAC/ACEH set/assign, without WriteHeader/Write/delete; the passthrough path does nothing but that call; `found` means present with at least one value (structure of headers.First); (R11.5) which middlewares take the passthrough path: the zero value (nil pointer by the language) and any middleware after a Reconfigure that returned nil for a nil Config — every successful path of Reconfigure stores the builder's result for its own argument, and the builder returns a nil configuration for a nil Config."
 	r.NotDecided = "what the wrapped handler and a user-supplied ResponseWriter do; that net/http delivers the handler's output unchanged"
 	r.Trusted = trustedRequestPath
 	rt, ok := requestTableGuards(ctx, r)
@@ -100,6 +100,67 @@ func checkC11(ctx *Ctx) *Result {
 	}
 	if nPass != 1 {
 		r.undecided("R11.1", "passthrough-path", fmt.Sprintf("%d passthrough paths, expected 1", nPass))
+	}
+	// R11.5: which middlewares are passthrough. The zero value's pointer is
+	// nil by the language; Reconfigure must publish exactly what the builder
+	// returns for its argument (and the builder returns a nil configuration
+	// for a nil Config: R8.3), so that Reconfigure(nil) always leads to the
+	// passthrough path of R11.1.
+	r.rule("R11.5", "a Reconfigure that returns nil has stored, as the configuration pointer, the builder's result for its own argument (with R8.3: Reconfigure(nil) ⇒ pointer nil ⇒ passthrough path)", 1)
+	r.rule("R8.3", "builder: (nil, nil) for a nil Config; non-nil configuration with a nil error; nil configuration with an error", 1)
+	builderRule(ctx, r, "R8.3")
+	if t, ok := mwGuards(ctx, r); ok {
+		val := ctx.Validation()
+		rc := ctx.P.Func(pkgRoot, "(*Middleware).Reconfigure")
+		var mf *MwFunc
+		if rc != nil {
+			mf = t.Funcs[funcName(rc)]
+		}
+		if rc == nil || mf == nil || val.Builder == nil || len(rc.Params) != 2 {
+			r.undecided("R11.5", "Reconfigure", "anchor not found")
+		} else {
+			bname := funcName(val.Builder)
+			nSucc := 0
+			for _, mp := range mf.Paths {
+				if mp.Path.End != "return" || len(mp.Rets) != 1 {
+					continue
+				}
+				var bc *Term
+				ptrStore := -1
+				for i, e := range mp.Events {
+					if e.Kind == "call" && e.Eff.Name == bname {
+						bc = e.Eff.Res
+					}
+					if e.Kind == "store" && e.Field == t.PtrFld {
+						ptrStore = i
+					}
+				}
+				// a path that reports success: the result is nil
+				succ := mp.Rets[0].IsConst("nil") || (bc != nil && mp.Rets[0].Key() == bc.Key()+"#1" && mp.Val("bin:==("+bc.Key()+"#1, nil)") == 1)
+				if !succ {
+					if ptrStore >= 0 {
+						r.fail("R11.5", mp.describe(), "", "Reconfigure replaces the configuration on a path that reports an error")
+					}
+					continue
+				}
+				nSucc++
+				good, detail := true, ""
+				switch {
+				case bc == nil || len(bc.Args) != 1 || bc.Args[0].Key() != "param:"+rc.Params[1].Name():
+					good, detail = false, "a successful Reconfigure does not build the configuration from its own argument"
+				case ptrStore < 0:
+					good, detail = false, "Reconfigure returns nil without storing the configuration pointer: Reconfigure(nil) can leave the middleware configured"
+				case mp.Events[ptrStore].Val.Key() != bc.Key()+"#0":
+					good, detail = false, "the pointer stored is not the builder's result: "+mp.Events[ptrStore].Val.Key()
+				case mp.Events[ptrStore].Base != "param:"+rc.Params[0].Name():
+					good, detail = false, "the pointer is stored in another Middleware"
+				}
+				r.check(good, "R11.5", mp.describe(), "", detail, 1)
+			}
+			if nSucc == 0 {
+				r.undecided("R11.5", "Reconfigure", "no path of Reconfigure reports success")
+			}
+		}
 	}
 	checkFirst(ctx, r)
 	r.RuleDocs["R3.1"] = "headers.First: found ⇔ key present with at least one value; returns v[0], v[:1] of that lookup"
